@@ -766,13 +766,14 @@ impl TryFrom<&mut Peekable<Lexer>> for ParserNode {
                                 ));
                             }
                             PseudoType::Snez => {
+                                // snez rd, rs == sltu rd, x0, rs
                                 let rd = lex.get_reg()?;
                                 let rs1 = lex.get_reg()?;
-                                return Ok(ParserNode::new_iarith(
-                                    With::new(IArithType::Sltiu, next_node.clone()),
+                                return Ok(ParserNode::new_arith(
+                                    With::new(ArithType::Sltu, next_node.clone()),
                                     rd,
+                                    With::new(Register::X0, next_node.clone()),
                                     rs1,
-                                    With::new(Imm::new(0), next_node.clone()),
                                     lex.raw_token,
                                 ));
                             }
